@@ -20,6 +20,8 @@ def main():
         i = a.index('--tier'); tier = a[i + 1]; del a[i:i + 2]
     pid = a[0]
     ks = a[1:] or sorted(os.path.basename(p) for p in glob.glob('/verif/seeded/%s/*' % pid) if os.path.isdir(p))
+    import fcntl
+    lk = open('/tmp/altrepo.lock', 'w'); fcntl.flock(lk, fcntl.LOCK_EX)   # one seeded experiment at a time
     ensure_alt()
     for k in ks:
         d = '/verif/seeded/%s/%s' % (pid, k)
